@@ -19,7 +19,7 @@ pub const ID: &str = "C06";
 
 /// The quick sweep covers a fixed set of small fixtures: all four formats, VBA (xlsm and xls),
 /// tables, merged regions, annotations, repeated rows, rich text, BIFF5, a password file, CONTINUE records, defined names / formulas / VBA in xls, formula records in xlsb.
-const QUICK_SWEEP: [&str; 17] = [
+const QUICK_SWEEP: [&str; 18] = [
     "any_sheets.xls",
     "any_sheets.xlsx",
     "any_sheets.xlsb",
@@ -37,6 +37,7 @@ const QUICK_SWEEP: [&str; 17] = [
     "picture.xls",
     "issues.xls",
     "issues.xlsb",
+    "issue_391.xlsx",
 ];
 
 pub struct Layout {
@@ -132,6 +133,9 @@ pub fn light_ops() -> Vec<Op> {
         v.push(Op::MergeCells(SheetArg::Idx(i)));
     }
     v.push(Op::LoadMerged);
+    v.push(Op::Worksheets);
+    v.push(Op::LoadTables);
+    v.push(Op::Vba);
     v
 }
 
